@@ -193,27 +193,22 @@ def gen_plan_world(rng, planner=None):
     a time, 1-2 strategies per task with DIFFERENT runtimes and resource kinds (a fast GPU strategy and a slow CPU
     strategy), short horizons.  Tasks keep arriving while earlier ones are still SCHEDULED for a later start, so a
     retracting planner re-places them (possibly with the other strategy)."""
-    pol = planner or rng.choice(PLANNERS)
-    # -- cluster ---------------------------------------------------------------
-    n_workers = rng.choice([1, 2, 2, 3])
-    n_pools = 1 if n_workers == 1 or rng.random() < 0.6 else 2
-    homogeneous = rng.random() < 0.65
-    pools = [{"name": f"Pool{i}", "workers": []} for i in range(n_pools)]
-    for wi in range(n_workers):
-        if homogeneous or wi == 0:
-            kinds = ["GPU", "CPU"]
-        else:
-            kinds = rng.choice([["GPU"], ["CPU"], ["GPU", "CPU"]])
-        res = [{"name": f"{nm}:id{k + 1}", "quantity": rng.choice([1, 1, 2])} for k, nm in enumerate(kinds)]
-        pools[wi % n_pools]["workers"].append({"name": f"W{wi % n_pools}_{wi // n_pools}", "resources": res})
+    pol = planner or rng.choice(["ILP"] * 9 + ["TetriSchedGurobi"] * 7 + ["TetriSchedCPLEX"] * 4)   # a CPLEX run costs 1-3 s
     # -- workload --------------------------------------------------------------
     graphs, profiles = [], []
     njobs = rng.choice([1, 2, 2, 3])
-    budget = 9  # tasks over the whole run
+    # ILP without deadline enforcement must use the goal max_slack (a non-convex quadratic objective: Gurobi needs seconds to
+    # minutes on 6+ tasks): few of those, and tiny
+    slack_goal = pol == "ILP" and rng.random() < 0.1
+    budget = 4 if slack_goal else 8  # tasks over the whole run
     for ji in range(njobs):
         jname = f"J{ji}"
         shape = rng.choice(["one", "one", "chain2", "chain2", "chain3", "fork", "join"])
         n = {"one": 1, "chain2": 2, "chain3": 3, "fork": 3, "join": 3}[shape]
+        if n > budget:
+            shape, n = "one", 1
+        if budget <= 0:
+            break
         kids = {
             "one": {0: []}, "chain2": {0: [1], 1: []}, "chain3": {0: [1], 1: [2], 2: []},
             "fork": {0: [1, 2], 1: [], 2: []}, "join": {0: [2], 1: [2], 2: []},
@@ -244,19 +239,41 @@ def gen_plan_world(rng, planner=None):
             if kids[ti]:
                 node["children"] = [f"T{k}" for k in kids[ti]]
             nodes.append(node)
-        inv = rng.choice([1, 2, 2, 3])
-        while n * inv > budget and inv > 1:
-            inv -= 1
-        budget = max(1, budget - n * inv)
+        inv = min(rng.choice([1, 2, 2, 3]), budget // n)
+        budget -= n * inv
         g = {"name": jname, "graph": nodes, "release_policy": "fixed", "period": rng.choice([2, 3, 5, 8, 12]), "invocations": inv,
              "start": rng.choice([0, 0, 1, 3, 6, 10]), "deadline_variance": rng.choice([[0, 0], [10, 30], [50, 100], [100, 200], [20, 20]])}
         graphs.append(g)
+    # -- cluster ---------------------------------------------------------------
+    need = {"GPU": 1, "CPU": 1}
+    for pr in profiles:
+        for st in pr["execution_strategies"]:
+            for key, q in st["resource_requirements"].items():
+                need[key.split(":")[0]] = max(need[key.split(":")[0]], q)
+    n_workers = rng.choice([1, 2, 2, 3])
+    n_pools = 1 if n_workers == 1 or rng.random() < 0.6 else 2
+    # ILPScheduler raises AttributeError as soon as a SCHEDULED task has one (worker, strategy) pair that does not fit
+    # (known finding C10-ILP-1) and the run aborts: most ILP worlds get workers that can hold every strategy
+    all_fit = pol == "ILP" and rng.random() < 0.85
+    homogeneous = all_fit or rng.random() < 0.65
+    pools = [{"name": f"Pool{i}", "workers": []} for i in range(n_pools)]
+    for wi in range(n_workers):
+        if homogeneous or wi == 0:
+            kinds = ["GPU", "CPU"]
+        else:
+            kinds = rng.choice([["GPU"], ["CPU"], ["GPU", "CPU"]])
+        res = [{"name": f"{nm}:id{k + 1}", "quantity": need[nm] if all_fit and rng.random() < 0.8 else (need[nm] + 1 if all_fit else rng.choice([1, 1, 2]))}
+               for k, nm in enumerate(kinds)]
+        pools[wi % n_pools]["workers"].append({"name": f"W{wi % n_pools}_{wi // n_pools}", "resources": res})
     lookahead = rng.choice([0, 0, 3, 10, 30])
     rtg = pol != "TetriSchedCPLEX" and rng.random() < 0.3
     enforce = rng.random() < 0.85
+    if pol == "ILP":
+        enforce = not slack_goal or rng.random() < 0.5
     policy = {"name": pol, "enforce_deadlines": enforce, "retract": rng.random() < 0.6, "lookahead": lookahead, "goal": "max_goodput"}
-    if pol == "ILP" and (not enforce or rng.random() < 0.15):
+    if slack_goal:
         policy["goal"] = "max_slack"
+        policy["lookahead"] = rng.choice([0, 0, 3])
     if pol != "ILP":
         policy["disc"] = rng.choice([1, 1, 1, 2, 3])
         policy["plan_ahead"] = rng.choice([6, 10, 14]) * policy["disc"] if rng.random() < 0.85 else -1
